@@ -112,13 +112,16 @@ def run(ck: common.Check, replay=None):
         on_reset = None
         pre = []
         ctx = f"std.Clock(self.clk), {reset_args(is_async, low)}"
+        step_cond = ck.rng.random() < 0.3
+        if step_cond:
+            ctx += ", step_cond=lambda: self.b"
         if ck.rng.random() < 0.3:
             v = ck.rng.randrange(2)
             on_reset = (0, v)
             pre = ["        def on_rst():", f"            self.q0 <<= {'True' if v else 'False'}"]
             ctx += ", on_reset=on_rst"
         src = c03.to_source("clocked", lines, g.helpers, uni, ctx_args=ctx, extra_ports=["    rst = Port.input(Bit)"], pre_ctx=pre)
-        items.append(("seq", f"seq{k:04d}", src, dict(uni=uni, ref=ref, on_reset=on_reset, is_async=is_async, low=low)))
+        items.append(("seq", f"seq{k:04d}", src, dict(uni=uni, ref=ref, on_reset=on_reset, is_async=is_async, low=low, step_cond=step_cond)))
     cg = c01.Gen(ck.rng, max_stmts=7, max_depth=2)
     base = [p for p in c01.CORPUS[:20]]
     for k in range(n_coro):
@@ -139,13 +142,16 @@ def run(ck: common.Check, replay=None):
             defs = (f"Definition sdecls := {uni.sdecls()}.\nDefinition body : stm := {m['ref']}.\n"
                     f"Definition rdecls := {rdecls(uni, m['ref'], m['on_reset'])}.\n"
                     "Definition outs (st : list Z) : list value := map (fun p => out_val (fst p) (snd p)) (combine sdecls (firstn 4 st)).")
-            seq_cases.append(X.Case(name, r["vhdl"], step=f"with_reset {b(m['is_async'])} {b(m['low'])} rdecls outs (seq_step sdecls body)",
+            inner = "(seq_step sdecls body)"
+            if m["step_cond"]:
+                inner = f"(with_stepcond 1 outs {inner})"      # input b (index 1 after the reset)
+            seq_cases.append(X.Case(name, r["vhdl"], step=f"with_reset {b(m['is_async'])} {b(m['low'])} rdecls outs {inner}",
                                     init=uni.init_state(), defs=defs, mid=True,
                                     input_inits={"rst": ("L", True)} if m["low"] else None,
                                     alphabet_overrides={"i": "[VV KUns 2%N 0%Z; VV KUns 2%N 1%Z; VV KUns 2%N 3%Z]"} if ck.tier == "quick" else None,
                                     imports="From Cohdl Require Import Models.SeqRef Models.ResetRef.",
                                     meta={"kind": "sequential body", "async": m["is_async"], "active_low": m["low"],
-                                          "on_reset": m["on_reset"], "source": src, "ref": m["ref"]}))
+                                          "on_reset": m["on_reset"], "step_cond": m["step_cond"], "source": src, "ref": m["ref"]}))
         else:
             ck.evaluations += 1
             try:
